@@ -107,6 +107,10 @@ class C17(object):
     assumptions = ["thread safety is not demanded; diagnostic wording is not compared",
                    "a zygote child is taken as the fresh-process reference (interpreter state = just imported); selftest --fidelity compares it with a real assembler.py subprocess"]
 
+    real_components = ["cocoasm/** assembler core, unmodified, in real CPython interpreters started under a chosen PYTHONHASHSEED (zygotes) and forked per history",
+                       "the host filesystem for INCLUDE files: a real scratch directory per history, outside /repo and /verif, removed afterwards"]
+    stub_components = ["none inside the interpreter under test; the scheduler (which history runs in which interpreter, which file version is on disk before which assembly) is the simulator's"]
+
     def __init__(self):
         self.seeds = None
 
